@@ -414,6 +414,36 @@ func TestVerifC05App(t *testing.T) {
 	s.explore(t)
 }
 
+// Short group_interval (5s < notify.MinTimeout): a delivery that hangs 8s is still in flight when the
+// group's next tick lands, so the following flush starts late, with a tick time in the past.
+const fYAMLShort = `global:
+  resolve_timeout: 1m
+route:
+  receiver: r1
+  group_by: [g]
+  group_wait: 5s
+  group_interval: 5s
+  repeat_interval: 1m
+receivers:
+- name: r1
+`
+
+func TestVerifC05AppLate(t *testing.T) {
+	fInit(t)
+	c := monCfg{gw: 5 * time.Second, gi: 5 * time.Second, repeat: time.Minute, slack: 20 * time.Second, retention: 10 * time.Minute, receiver: "r1", integs: fIntegs1["r1"]}
+	s := &fScenario{prop: "C05", part: "app-late-flush", yaml: fYAMLShort, integs: fIntegs1, mon: c, fo: defaultFOpts(), rt: time.Minute,
+		tail: 90 * time.Second, depthQ: 5, depthT: 6, monitors: stdMonitors(c),
+		events: []fEvent{
+			{"fire A (end+1h)", func(x *fx) bool { x.fire("A", "1", time.Hour); return true }},
+			{"resolve A", func(x *fx) bool { x.resolve("A", "1"); return true }},
+			{"fire B (same group, end+1h)", func(x *fx) bool { x.fire("B", "1", time.Hour); return true }},
+			{"webhook: hangs 8s", func(x *fx) bool { x.setMode("r1/webhook/0", mHang); return true }},
+			{"webhook: ok", func(x *fx) bool { x.setMode("r1/webhook/0", mOK); return true }},
+			evAdvance(1 * time.Second), evAdvance(5 * time.Second), evAdvance(6 * time.Second),
+		}}
+	s.explore(t)
+}
+
 // checkStatusAPI (C02 / C03): after an event the API reports every alert's suppression status as the ground truth has it.
 func (x *fx) checkStatusAPI() *violation {
 	t := x.now()
